@@ -236,11 +236,9 @@ class MiniAdapter:
         import numpy as np
         from armi.reactor import assemblies, blocks, components, grids
         from armi.reactor import parameters
-        from armi.reactor.reactorParameters import makeParametersReadOnly
 
         self.np, self.assemblies, self.blocks, self.components, self.grids = np, assemblies, blocks, components, grids
         self.parameters = parameters
-        self.makeReadOnly = makeParametersReadOnly
         self.name = profile
         self.prof = _profiles()[profile]
         self.gridrev = {}
@@ -453,12 +451,6 @@ def _short(x):
 # violation keys: action : observation path : input class
 # ------------------------------------------------------------------------------------------------------------
 _IDX = re.compile(r"\[(\d+)\]")
-
-
-def first_diff(exp, got, skip=()):
-    """like rp.diff, but observation keys in `skip` are compared last / separately"""
-    e2 = {k: v for k, v in exp.items() if k not in skip}
-    return rp.diff(e2, got)
 
 
 def kept_reshaped(frm, prof_bindings):
@@ -698,10 +690,11 @@ EMIT_QUICK = {
     "params": ("RetainState_emitP.cfg", False),
 }
 EMIT_THOROUGH = {
-    "copy": ("RetainState_emitC_thorough.cfg", True),
+    "copy": ("RetainState_emitC_thorough.cfg", False),
     "grid": ("RetainState_emitG_thorough.cfg", False),
-    "params-shared": ("RetainState_emitP2_thorough.cfg", True),
-    "params": ("RetainState_emitP_thorough.cfg", True),
+    "params-shared": ("RetainState_emitP2_thorough.cfg", False),
+    "params-all-kinds": ("RetainState_emitP.cfg", True),
+    "params": ("RetainState_emitP_thorough.cfg", False),
 }
 EMIT = {k: (v[0],) for k, v in EMIT_QUICK.items()}  # (selftest uses the quick graphs)
 PROFILES = ("scalar-array", "str-none-dict", "reshape")
@@ -870,11 +863,9 @@ class ReactorRecorder:
         from armi.reactor import parameters
         from armi.reactor.components import component
         from armi.reactor.excoreStructure import ExcoreStructure
-        from armi.reactor.reactorParameters import makeParametersReadOnly
 
         self.np = np
         self.parameters = parameters
-        self.makeReadOnly = makeParametersReadOnly
         self.fam = [("r", reactors.Reactor), ("core", reactors.Core), ("sfp", ExcoreStructure),
                     ("asm", assemblies.Assembly), ("blk", blocks.Block), ("cmp", component.Component)]
         global _TEMPLATE
@@ -1177,7 +1168,7 @@ def traces_collect(thorough, seed, recorder=None, ntraces=None):
     """record + validate; returns plain data (so that it can run in a child process next to the edge replay)"""
     rec = recorder or ReactorRecorder()
     rng = random.Random(seed * 7919 + 16)
-    nt = ntraces or (400 if thorough else 40)
+    nt = ntraces or (250 if thorough else 40)
     nev = 60 if thorough else 40
     t0 = time.time()
     traces = [rec.record("t%d" % t, nev, rng) for t in range(nt)]
@@ -1275,10 +1266,6 @@ def traces_report(rep, out):
         raise tlc.MachineryError("vacuous: no trace events were recorded")
 
 
-def run_traces(rep, thorough, seed, recorder=None, ntraces=None):
-    traces_report(rep, traces_collect(thorough, seed, recorder, ntraces))
-
-
 def _child_traces(argv):
     tier, seed, outp = argv[0], int(argv[1]), argv[2]
     try:
@@ -1315,7 +1302,7 @@ def replay(payload):
         thorough = payload.get("tier") == "thorough"
         want = payload["trace_id"]
         tr = None
-        for t in range(400 if thorough else 60):
+        for t in range(250 if thorough else 40):
             tr = rec.record("t%d" % t, 60 if thorough else 40, rng)
             if tr["id"] == want:
                 break
@@ -1495,12 +1482,14 @@ def _mutants():
 def selftest():
     """prints caught/MISSED per mutant; 0 iff everything was caught (and TLC refutes the as-built mechanism)"""
     rc = 0
-    # 0. the specification's own properties are not vacuous: the mechanism as built is refuted by TLC
-    res = tlc.run("RetainState_mc", "RetainState_asbuilt.cfg", MODDIR, workers=4, want_prints=False, timeout=600)
-    ok = res.violation is not None
-    print("spec-level: as-built mechanism (single grid slot, pickle keeps serial) %s by TLC (%s)" % (
-        "caught: refuted" if ok else "MISSED: accepted", res.violation["name"] if ok else "-"))
-    rc |= 0 if ok else 1
+    # 0. the specification's own properties are not vacuous: the mechanisms as built are refuted by TLC
+    for cfg, want, what in (("RetainState_asbuilt_grid.cfg", "ExitRestoresGrid", "single grid backup slot"),
+                            ("RetainState_asbuilt_serial.cfg", "SerialsUnique", "unpickled copy keeps the serial")):
+        res = tlc.run("RetainState_mc", cfg, MODDIR, workers=4, want_prints=False, timeout=600)
+        ok = res.violation is not None and res.violation["name"] == want
+        print("%s  spec-level: mechanism as built (%s) %s by TLC (%s)" % (
+            "caught " if ok else "MISSED ", what, "refuted" if ok else "NOT refuted", res.violation["name"] if res.violation else "-"))
+        rc |= 0 if ok else 1
     graphs = {}
     for focus, cfgs in EMIT.items():
         r = tlc.run("RetainState_mc", cfgs[0], MODDIR, workers=1, coverage=False, timeout=3000)
